@@ -124,6 +124,34 @@ def stopping_cases(draw, max_inner=10):
 
 
 @st.composite
+def sibling_cases(draw):
+    """Two games solved back to back in one process that look alike to anything keyed on part of the
+    description: the second has the same transition lists as the first and differs only in the owners of some
+    states, or only in the final states, or only in the probabilities (same targets).  Each is compared with
+    its OWN exact values; a memo / cache carried over from the first solve shows up in the second."""
+    g = draw(games.stopping_games(min_inner=2, max_inner=8, dyadic=True))
+    how = draw(st.sampled_from(("owners", "owners", "finals", "probabilities")))
+    h = copy_game(g)
+    n = len(g["players"])
+    if how == "owners":
+        idx = [s for s in range(n) if g["players"][s] in (P1, P2)]
+        if idx:
+            for s in draw(st.lists(st.sampled_from(idx), min_size=1, max_size=len(idx), unique=True)):
+                h["players"][s] = P2 if g["players"][s] == P1 else P1
+    elif how == "finals":
+        absorbing = [s for s in range(n) if exact.is_absorbing(g, s)]
+        h["final_states"] = draw(st.lists(st.sampled_from(absorbing), min_size=1, max_size=len(absorbing), unique=True))
+    else:
+        for s in range(n):
+            lst = h["transition_list"][s]
+            if g["players"][s] == PR and len(lst) >= 2:
+                ps = [p for p, _ in lst]
+                ps = ps[1:] + ps[:1]
+                h["transition_list"][s] = [(p, t) for p, (_, t) in zip(ps, lst)]
+    return dict(kind="siblings", first=g, second=h, how=how, prune=games.coin(draw))
+
+
+@st.composite
 def tiny_board_cases(draw):
     b = draw(boards.boards(max_len=2, max_wid=2, max_tiles=3))
     return dict(kind="board", board=b, variant=draw(st.sampled_from("abc")), exact=True)
@@ -223,6 +251,8 @@ def phases(tier):
         Phase("planted-slow-cycles", enum=planted_cases, note="values that need many sweeps"),
         Phase("arbitrary-games", strategy=lambda: any_cases(max_pairs=mp), examples=(1200, 40000)),
         Phase("stopping-games", strategy=lambda: stopping_cases(10 if tier == "quick" else 13), examples=(1200, 40000)),
+        Phase("sibling-pairs-back-to-back", strategy=sibling_cases, examples=(300, 12000),
+              note="same transition lists, different owners / finals / probabilities, solved consecutively"),
         Phase("tiny-boards-exact", strategy=tiny_board_cases, examples=(60, 1500)),
         Phase("boards-consistency", strategy=board_cases, examples=(40, 600)),
         Phase("big-boards-consistency", enum=big_boards(tier)),
@@ -516,4 +546,14 @@ def check_case(case):
         return check_board(case, v)
     if case["kind"] == "medium":
         return check_medium(case, v)
+    if case["kind"] == "siblings":
+        v.cls("siblings_" + case["how"])
+        for g in (case["first"], case["second"]):
+            for sub in (dict(kind="solve", game=g, prune=case["prune"]), dict(kind="solver", game=g, theta=1e-6)):
+                w = check_small(sub, Verdict())
+                v.fails.extend(w.fails)
+                v.nontrivial = v.nontrivial or w.nontrivial
+                if w.inconclusive:
+                    v.inconclusive = w.inconclusive
+        return v
     return check_small(case, v)
